@@ -20,6 +20,7 @@ import (
 
 	"github.com/bloxapp/ssv/networkconfig"
 	"github.com/bloxapp/ssv/operator/duties"
+	"github.com/bloxapp/ssv/operator/duties/dutystore"
 	"github.com/bloxapp/ssv/protocol/v2/blockchain/beacon"
 	ssvtypes "github.com/bloxapp/ssv/protocol/v2/types"
 )
@@ -394,6 +395,35 @@ type sut struct {
 	idx    chan struct{}
 	ack    chan struct{}
 	stop   func()
+	store  *dutystore.Store // the store the handler fills; the node hands the same store to the message validator
+}
+
+// gateMisses: the message validator rejects every consensus message of a proposer duty it cannot find in the
+// duty store (validateBeaconDuty: Proposer.ValidatorDuty(epoch, slot, index) == nil -> ErrNoDuty).  Returns the
+// proposer duties among obs (executed while the last event was processed) that the store no longer holds now,
+// i.e. while the duty is running.
+func (s *sut) gateMisses(obs []obsv) (out []obsv) {
+	for i, b := range obs {
+		if b.fetch || b.role != 'P' {
+			continue
+		}
+		epoch := phase0.Epoch(b.slot / s.cfg.spe)
+		// a fetch of the duty's epoch AFTER the hand-over (indices change, reorg): the store then holds the beacon
+		// node's newer answer, and whether that still names the duty is the beacon node's business, not the code's
+		refetched := false
+		for _, later := range obs[i+1:] {
+			if later.fetch && later.ep == uint64(epoch) {
+				refetched = true
+			}
+		}
+		if refetched {
+			continue
+		}
+		if s.store.Proposer.ValidatorDuty(epoch, phase0.Slot(b.slot), phase0.ValidatorIndex(b.vidx)) == nil {
+			out = append(out, b)
+		}
+	}
+	return out
 }
 
 // start runs HandleInitialDuties (INIT op) and then the handler loop; returns the observations of
@@ -407,7 +437,7 @@ func startSut(cfg config, o op) (*sut, []obsv) {
 	s.ack = make(chan struct{})
 	kind := map[byte]duties.VerifHandlerKind{'A': duties.VerifAttester, 'P': duties.VerifProposer, 'S': duties.VerifSyncCommittee}[cfg.kind]
 	net := networkconfig.NetworkConfig{Name: "verif", Beacon: fakeNet{spe: cfg.spe, epp: cfg.epp, now: &s.now}}
-	s.stop = duties.VerifRunHandler(kind, s.env, net, s.env, s.env.execute, s.ticker, s.reorg, s.idx,
+	s.stop, s.store = duties.VerifRunHandlerStore(kind, s.env, net, s.env, s.env.execute, s.ticker, s.reorg, s.idx,
 		func() { s.ack <- struct{}{} })
 	<-s.ack // the loop is at its select for the first time: initial duties are done
 	return s, s.take()
